@@ -13,6 +13,9 @@ func TestProp_Unmarshal(t *testing.T) { PartUnmarshal.Run(t) }
 func TestProp_BigU32(t *testing.T)    { PartBig.Run(t) }
 func TestProp_U32BitTip(t *testing.T) { PartTip.Run(t) }
 func TestProp_FromData(t *testing.T)  { PartData.Run(t) }
+func TestProp_Instances(t *testing.T) { PartInst.Run(t) }
+func TestProp_Retention(t *testing.T) { PartKeep.Run(t) }
+func TestProp_Dense(t *testing.T)     { PartDense.Run(t) }
 
 func TestReplay(t *testing.T) {
 	PartMarshal.Replay(t, 1)
@@ -20,6 +23,9 @@ func TestReplay(t *testing.T) {
 	PartBig.Replay(t, 1)
 	PartTip.Replay(t, 1)
 	PartData.Replay(t, 1)
+	PartInst.Replay(t, 1)
+	PartKeep.Replay(t, 1)
+	PartDense.Replay(t, 1)
 }
 
 // FuzzUnmarshal is the byte-level, coverage-guided entry: arbitrary bytes go to
